@@ -262,8 +262,50 @@ async fn snapshot_catalogue_crash_image(n: u64) -> Result<(), String> {
     Ok(())
 }
 
+/// C20 at the literal 1024-byte scale (s20_6): a snapshot whose records have the given value lengths is written by the real
+/// SnapshotWriter and read back by the real SnapshotReader (1024-byte reads, 1024-byte buffer that doubles).
+async fn snapshot_big_records(lens: Vec<usize>) -> Result<(), String> {
+    use crate::raft::filestore::model::{SnapshotHeaderDto, SnapshotRecordDto};
+    use crate::raft::filestore::raftsnapshot::{SnapshotReader, SnapshotWriter};
+    let dir = tempfile::tempdir().unwrap();
+    let path = dir.path().join("snap").to_string_lossy().into_owned();
+    let header = SnapshotHeaderDto { last_index: 7, last_term: 3, member: vec![], member_after_consensus: vec![], node_addrs: Default::default() };
+    let mut w = SnapshotWriter::init(&path, header).await.map_err(|e| format!("MODEL: writer init: {}", e))?;
+    let mut written = vec![];
+    for (i, n) in lens.iter().enumerate() {
+        let value: Vec<u8> = (0..*n).map(|j| ((i * 37 + j * 11 + 5) % 251 + 1) as u8).collect();
+        let rec = SnapshotRecordDto { tree: Arc::new("t".to_owned()), key: vec![i as u8 + 1], value, op_type: 0 };
+        w.write_record(&rec).await.map_err(|e| format!("MODEL: write_record: {}", e))?;
+        written.push(rec);
+    }
+    w.flush().await.map_err(|e| format!("MODEL: flush: {}", e))?;
+    let mut r = SnapshotReader::init(&path).await.map_err(|e| format!("the snapshot file cannot be opened for reading: {}", e))?;
+    for (i, want) in written.iter().enumerate() {
+        match r.read_record().await {
+            Ok(Some(got)) => {
+                if got.key != want.key || got.value.len() != want.value.len() {
+                    return Err(format!("value lengths {:?}: record {} is read back with key {:?} and a value of {} bytes", lens, i, got.key, got.value.len()));
+                }
+                if let Some(off) = (0..want.value.len()).find(|j| got.value[*j] != want.value[*j]) {
+                    return Err(format!("value lengths {:?}: record {} is read back with other bytes than were written (first at offset {} of its value)", lens, i, off));
+                }
+            }
+            Ok(None) => return Err(format!("value lengths {:?}: {} records are read back, {} were written", lens, i, written.len())),
+            Err(e) => return Err(format!("value lengths {:?}: reading fails after {} of {} records: {}", lens, i, written.len(), e)),
+        }
+    }
+    match r.read_record().await {
+        Ok(None) => Ok(()),
+        Ok(Some(_)) => Err(format!("value lengths {:?}: a record is read back that was not written", lens)),
+        Err(e) => Err(format!("value lengths {:?}: reading fails behind the last record: {}", lens, e)),
+    }
+}
+
 async fn scenario(name: &str) -> Result<(), String> {
     use tokio::io::AsyncWriteExt;
+    if let Some(l) = name.strip_prefix("snapshot_big_records_") {
+        return snapshot_big_records(l.split('_').filter_map(|x| x.parse().ok()).collect()).await;
+    }
     if let Some(n) = name.strip_prefix("snapshot_catalogue_crash_image_") {
         return snapshot_catalogue_crash_image(n.parse().unwrap_or(3)).await;
     }
